@@ -111,9 +111,9 @@ func Admits(e *ExpVal, o *Obs) (bool, string) {
 
 type tally struct {
 	cases, conform, devHits, skippedFlaky int64
-	byFam                                   sync.Map
-	kinds                                   sync.Map
-	exact                                   int64 // cases whose strict expectation is narrower than totality
+	byFam                                 sync.Map
+	kinds                                 sync.Map
+	exact                                 int64 // cases whose strict expectation is narrower than totality
 }
 
 func (t *tally) count(m *sync.Map, k string) {
@@ -314,7 +314,7 @@ func Check(c *core.Ctx) (map[string]any, []string, error) {
 		"tlc_runs": tlcStats, "cases": t.cases, "conforming": t.conform, "conforming_to_known_deviation": t.devHits,
 		"not_reproduced_skipped": t.skippedFlaky, "cases_by_family": dump(&t.byFam), "replies_by_kind": dump(&t.kinds),
 		"cases_with_expectation_narrower_than_totality": t.exact,
-		"functions_in_table": len(live) - len(missing) + len(gone), "functions_live": len(live), "functions_missing_from_table": len(missing),
+		"functions_in_table":                            len(live) - len(missing) + len(gone), "functions_live": len(live), "functions_missing_from_table": len(missing),
 		"worker_restarts": pool.Restarts, "binding_self_test": bind, "judge_mutated_programs": judgeCov,
 		"rule": "one TLC state per block of cases (the cases of a block are evaluated inside the state's invariants); every case is one call on a fresh runtime in a worker subprocess",
 	}
